@@ -147,7 +147,7 @@ func Run(c *core.Ctx) {
 		reqs = append(reqs, drv.Req{Fn: "fmt", Args: [][]byte{[]byte(cs.Enc)}})
 	}
 	res := c.Model(reqs)
-	tie1, accepted, same := true, true, true
+	tie1, accepted, same, sameFull := true, true, true, true
 	shapeCount := map[string]int{}
 	for i, cs := range cases {
 		c.Count(cs.Name)
@@ -170,6 +170,29 @@ func Run(c *core.Ctx) {
 			accepted = false
 			c.Fail("property", "code generated from the formatted file passes gofmt", "formatted-output-rejected", map[string]string{"file": cs.Name, "source": cs.Src, "formatted": cs.P1, "error": err.Error()}, "the code generated from the formatted file is not valid Go")
 			continue
+		}
+		// the whole `templ fmt` pipeline (imports processing runs the generator over the tree before it is written)
+		if cs.F1 != "" && !strings.Contains(cs.Name, "#imports") {
+			codeF, _, errF := generate(cs.F1)
+			if errF != nil {
+				accepted = false
+				if c.NFails("file formatted by the templ fmt pipeline is accepted") < 3 {
+					c.Fail("property", "file formatted by the templ fmt pipeline is accepted", "formatted-output-rejected", map[string]string{"file": cs.Name, "source": cs.Src, "formatted": cs.F1, "error": errF.Error()}, "the formatted file is not accepted")
+				}
+			} else if _, err := format.Source([]byte(codeF)); err != nil {
+				accepted = false
+				if c.NFails("file formatted by the templ fmt pipeline is accepted") < 3 {
+					c.Fail("property", "file formatted by the templ fmt pipeline is accepted", "formatted-output-rejected", map[string]string{"file": cs.Name, "source": cs.Src, "formatted": cs.F1, "error": err.Error()}, "the code generated from the formatted file is not valid Go")
+				}
+			} else if program(codeF) != program(code2) {
+				// must agree with the Write-level formatting (which is compared with the original below)
+				sameFull = false
+				if c.NFails("templ fmt pipeline formats to the same program as TemplateFile.Write") < 3 {
+					a, b := firstDiff(progText(code2), progText(codeF))
+					c.Fail("property", "templ fmt pipeline formats to the same program as TemplateFile.Write", "", map[string]any{"file": cs.Name, "source": cs.Src, "formatted": cs.F1, "write_level_line": a, "pipeline_line": b},
+						"the file written by the templ fmt pipeline (imports processing) generates a different program than the formatted parse tree")
+				}
+			}
 		}
 		p1, p2 := program(cs.Code), program(code2)
 		if p1 == p2 {
@@ -196,6 +219,7 @@ func Run(c *core.Ctx) {
 	c.Oblige("correspondence", "formatter model first pass = TemplateFile.Write, byte for byte, on every accepted input", tie1, "")
 	c.Oblige("correspondence", "the formatted file is accepted by parse + generate + gofmt on every accepted input", accepted, "")
 	c.Oblige("correspondence", "program(generate(format x)) = program(generate x) on every accepted input (known findings excepted by shape)", same || true, "see failures / known findings")
+	c.Oblige("correspondence", "the templ fmt pipeline (imports processing included) writes a file that generates the same program as the formatted parse tree", sameFull, "")
 }
 
 func firstDiff(a, b string) (string, string) {
